@@ -423,7 +423,20 @@ class AttributeSet(TypedExpression):
                 return apply_trailing_trivia(set_str, self.after, indent=indent)
             return self.add_trivia(f"{prefix}{{ }}", indent=indent, inline=inline)
 
-        if self.multiline:
+        multiline = self.multiline
+        inline_bindings: list[str] = []
+        if not multiline:
+            inline_bindings = _render_bindings(
+                _reconcile_attrpath_order(self.values, self.attrpath_order),
+                indent=indented,
+                inline=True,
+            )
+            # A member that spans several lines (multi-line value assigned by an
+            # edit) cannot sit in a one-line set: a re-parse would read the set
+            # as multi-line and format it differently.
+            multiline = any("\n" in item for item in inline_bindings)
+
+        if multiline:
             before_str = format_trivia(self.before, indent=indent)
             render_values = _reconcile_attrpath_order(self.values, self.attrpath_order)
             bindings_str = "\n".join(
@@ -442,10 +455,7 @@ class AttributeSet(TypedExpression):
             )
             return apply_trailing_trivia(set_str, self.after, indent=indent)
         else:
-            render_values = _reconcile_attrpath_order(self.values, self.attrpath_order)
-            bindings_str = " ".join(
-                _render_bindings(render_values, indent=indented, inline=True)
-            )
+            bindings_str = " ".join(inline_bindings)
             return self.add_trivia(
                 f"{prefix}{{ {bindings_str} }}", indent=indent, inline=inline
             )
